@@ -97,7 +97,7 @@ func cmdCheck(args []string) int {
 	cfg := sym.RunConfig{Repo: repo, Harness: filepath.Join(root, "harness"), SpecFile: filepath.Join(root, "harness", id+".json"),
 		Tier: tier, Workers: workers, Only: os.Getenv("VERIF_ONLY"), KnownFile: filepath.Join(root, "known_findings.json")}
 	out, err := sym.Run(cfg)
-	evPath := filepath.Join(root, "evidence", id+".json")
+	evPath := filepath.Join(env("VERIF_EVIDENCE_DIR", filepath.Join(root, "evidence")), id+".json")
 	if err != nil {
 		fmt.Fprintln(os.Stderr, "ssasym: error:", err)
 		writeEvidence(evPath, &evidence{PropertyID: id, Tier: tier, Seed: seed, Level: "model_checking",
@@ -221,6 +221,7 @@ func buildEvidence(id, tier string, seed int, out *sym.RunOutput, validated int,
 			a.Discharged += s.Discharged
 			a.Failed += s.Failed
 			a.Unknown += s.Unknown
+			a.FailedNotSolved += s.FailedNotSolved
 		}
 		if len(samples) < 6 && r.Witness != nil {
 			samples = append(samples, map[string]interface{}{"entry": r.Entry, "bounds": r.Bounds, "witness_model": r.Witness, "observations": r.WitnessObs, "discharged_obligation_smt2": r.Sample})
